@@ -357,6 +357,37 @@ def run(prog, rep):
                 preds.append((c, canon(Tracer(c.body).local(0))))
         filters = [t for g in [f] + prog.all_closures_under(f) for b, t in g.body.calls() if is_callee(t, r"Iterator::(filter|filter_map|skip_while|take_while|skip|take|step_by)$")]
         good = [r for c, r in preds if re.match(r"^\(\*arg:\w+\.2 Ne cast\(\*\*upvar:\w+\.full_match_(stanza|file)_capture_index\)\)$", r)]
+        # fused form: `.filter_map(|name| { …; if index == full_capture_index { None } else { Some((name, q, index)) } })`
+        for c in prog.all_closures_under(f):
+            if c.output is None or not c.ty(c.output).s.startswith("std::option::Option<("):
+                continue
+            cb, ctr = c.body, Tracer(c.body)
+            nones = [b for b in sorted(cb.reachable()) for st in cb.blocks[b]["stmts"] if st["k"] == "assign" and st["rv"]["k"] == "aggregate" and st["rv"].get("adt") == "std::option::Option" and st["rv"].get("variant") == "None" and st["p"]["l"] == 0]
+            somes = [b for b in sorted(cb.reachable()) for st in cb.blocks[b]["stmts"] if st["k"] == "assign" and st["rv"]["k"] == "aggregate" and st["rv"].get("adt") == "std::option::Option" and st["rv"].get("variant") == "Some" and st["p"]["l"] == 0]
+            if len(nones) != 1 or len(somes) != 1:
+                continue
+            from ..lib.cfgq import dominating_guards, normalized
+            gs = [normalized(g) for g in dominating_guards(cb, ctr, nones[0])]
+            eqs = [(canon(nc), nv_) for nc, nv_ in gs if strip(nc)[0] == "binop" and strip(nc)[1] == "Eq"]
+            if len(gs) != 1 or len(eqs) != 1 or eqs[0][1] is not True:
+                continue
+            m = re.match(r"^\(.*Query::capture_index_for_name\(.*\) Eq \*+upvar:(?:_ref__)?(\w+)\)$", eqs[0][0])
+            if not m:
+                continue
+            # what the captured comparison value is, in the enclosing closure
+            par = prog.fns.get(c.parent)
+            src = ""
+            if par is not None:
+                ptr = Tracer(par.body)
+                for b in sorted(par.body.reachable()):
+                    for st in par.body.blocks[b]["stmts"]:
+                        if st["k"] == "assign" and st["rv"]["k"] == "aggregate" and st["rv"].get("closure") == c.id:
+                            for fi, fn_ in enumerate(st["rv"].get("fields", [])):
+                                if fn_ in (m.group(1), "_ref__" + m.group(1)):
+                                    src = canon(strip(ptr.operand(st["rv"]["ops"][fi])))
+            if re.search(r"(upvar|arg):\w+\.full_match_(stanza|file)_capture_index$", src):
+                preds.append((c, "filter_map: None iff index == " + src))
+                good.append(preds[-1][1])
         nv += len(good)
         rep.check(len(preds) == len(good) and len(filters) == len(good) and good, "C03.V", "%s :: exposed captures" % f.id, f.loc(), "%d visitor construction(s): captures filtered by `index != full-match index` only" % len(good),
                   "the visitor hides captures by another criterion than the full-match index (predicates: %s; %d filtering adaptors)" % ([r[:80] for c, r in preds], len(filters)))
